@@ -1677,3 +1677,308 @@ func readsBeforeValue(h *ssa.Function, isRead func(ssa.Instruction) bool) bool {
 	}, nil)
 	return !found
 }
+
+// ---------------------------------------------------------------------------------------------
+// Round 11
+
+// constantSeededExtremes: loop-carried integer values of f (phis with a numeric constant on one incoming edge and a value
+// that depends on the loop on another) that are an operand of an ordering comparison evaluated without any guard on a
+// loop-carried flag — a running maximum / minimum seeded with a constant such as 0. The type's own minimum / maximum is a
+// neutral seed and is accepted.
+func constantSeededExtremes(f *ssa.Function) []ssa.Instruction {
+	var out []ssa.Instruction
+	allInstrs(f, func(i ssa.Instruction) {
+		phi, ok := i.(*ssa.Phi)
+		if !ok {
+			return
+		}
+		bt, isB := phi.Type().Underlying().(*types.Basic)
+		if !isB || bt.Info()&types.IsInteger == 0 {
+			return
+		}
+		seeded, looped := false, false
+		for _, e := range phi.Edges {
+			if k, isC := constOf(e); isC && k.Kind() == constant.Int {
+				s := k.ExactString()
+				if s == "-9223372036854775808" || s == "9223372036854775807" || s == "-2147483648" || s == "2147483647" {
+					continue
+				}
+				seeded = true
+				continue
+			}
+			looped = true
+		}
+		if !seeded || !looped || phi.Referrers() == nil {
+			return
+		}
+		// the phi must be fed (directly or through another phi) by a map-range key or slice element: a running extreme
+		fedByRange := false
+		var walk func(v ssa.Value, d int)
+		seen := map[ssa.Value]bool{}
+		walk = func(v ssa.Value, d int) {
+			if seen[v] || d > 4 {
+				return
+			}
+			seen[v] = true
+			switch x := v.(type) {
+			case *ssa.Phi:
+				for _, e := range x.Edges {
+					walk(e, d+1)
+				}
+			case *ssa.Extract:
+				if _, isNext := x.Tuple.(*ssa.Next); isNext {
+					fedByRange = true
+				}
+			case *ssa.UnOp:
+				if _, isIA := x.X.(*ssa.IndexAddr); isIA {
+					fedByRange = true
+				}
+			}
+		}
+		walk(phi, 0)
+		if !fedByRange {
+			return
+		}
+		for _, r := range *phi.Referrers() {
+			bo, isBO := r.(*ssa.BinOp)
+			if !isBO {
+				continue
+			}
+			switch bo.Op {
+			case token.LSS, token.LEQ, token.GTR, token.GEQ:
+			default:
+				continue
+			}
+			guarded := false
+			for _, fct := range factsAt(bo.Block()) {
+				if p, isP := strip(fct.V).(*ssa.Phi); isP {
+					if b2, ok := p.Type().Underlying().(*types.Basic); ok && b2.Kind() == types.Bool {
+						guarded = true
+					}
+				}
+			}
+			if !guarded {
+				out = append(out, bo)
+			}
+		}
+	})
+	return out
+}
+
+// ruleC13LatestNotSeededByConstant: the in-memory LoadLatest picks the greatest creation key of an id. A running maximum
+// that starts at a constant (0) instead of at an element is wrong for ids all of whose keys lie below it: the look-up of
+// the "maximum" misses and the id is reported as having no key although Load finds every record.
+func ruleC13LatestNotSeededByConstant(c *Ctx) {
+	u := c.U1
+	c.rule("C13.latest-not-seeded-by-a-constant", "in MemoryMetastore.LoadLatest (and the package helpers it calls) no running maximum / minimum over the creation keys is seeded with a numeric constant other than the type's own extreme, unless the comparison is guarded by a first-iteration flag — expected count on the pinned tree: none; positive example in the self-test fixtures", 0)
+	n := u.Named(pkgPersist, "MemoryMetastore")
+	var f *ssa.Function
+	if n != nil {
+		f = u.MethodOf(n, "LoadLatest")
+	}
+	if f == nil || f.Blocks == nil {
+		c.unresolved("MemoryMetastore.LoadLatest", "method")
+		return
+	}
+	fs := []*ssa.Function{f}
+	allInstrs(f, func(i ssa.Instruction) {
+		if h := staticCallee(i); h != nil && h.Blocks != nil && h.Pkg == f.Pkg && h != f {
+			fs = append(fs, h)
+		}
+	})
+	for _, g := range fs {
+		c.FuncsAnalysed[shortName(g)] = true
+		for _, i := range constantSeededExtremes(g) {
+			c.CallSites++
+			c.bad(trimPkgDirs(shortName(g))+"/running-extreme", u.ipos(i), "the latest creation time is computed as a running maximum that starts at a constant: for an id whose stored creation times all lie below it (e.g. negative, pre-epoch timestamps with a seed of 0) the computed \"latest\" is the seed itself, its look-up misses, and LoadLatest reports that the id has no key although Load returns each of its records")
+		}
+	}
+	c.ok("MemoryMetastore.LoadLatest/seed", "", "no constant-seeded running extreme")
+}
+
+// knownNilReturnedOverCandidate: returns of f (a function returning one pointer) that, on some way in, hand back a value
+// that a branch has just established to be nil while another value of the same type is established non-nil there.
+func knownNilReturnedOverCandidate(f *ssa.Function) []ssa.Instruction {
+	var out []ssa.Instruction
+	if f.Blocks == nil || f.Signature.Results().Len() != 1 {
+		return nil
+	}
+	if _, isPtr := f.Signature.Results().At(0).Type().Underlying().(*types.Pointer); !isPtr {
+		return nil
+	}
+	for _, r := range returnsOf(f) {
+		v := strip(returnedValue(r, 0))
+		if isNilValue(v) {
+			continue
+		}
+		var entries [][]Fact
+		b := r.Block()
+		if len(b.Preds) <= 1 {
+			entries = append(entries, factsAt(b))
+		} else {
+			for _, p := range b.Preds {
+				entries = append(entries, append(append([]Fact{}, factsAt(p)...), edgeFacts(p, b)...))
+			}
+		}
+		// the value returned per entry (a phi returns the edge's value)
+		for k, facts := range entries {
+			rv := v
+			if phi, isPhi := v.(*ssa.Phi); isPhi && phi.Block() == b && k < len(phi.Edges) {
+				rv = strip(phi.Edges[k])
+			}
+			nilHere, other := false, false
+			for _, fct := range facts {
+				x, isNil, ok := nilTest(fct)
+				if !ok || fct.Sub != nil {
+					continue
+				}
+				x = strip(x)
+				if x == rv && isNil {
+					nilHere = true
+				}
+				if x != rv && !isNil && types.Identical(x.Type(), rv.Type()) {
+					other = true
+				}
+			}
+			if nilHere && other {
+				out = append(out, r)
+				break
+			}
+		}
+	}
+	return out
+}
+
+// ruleC15VictimNotEmptyHanded: a policy's Victim() must name an entry whenever the policy holds one — evict() and the
+// Close drain dereference what it returns. A Victim that merges its segments must not answer with the segment that has
+// just been found empty while the other one has a candidate.
+func ruleC15VictimNotEmptyHanded(c *Ctx) {
+	u := c.U1
+	c.rule("C15.victim-not-empty-handed", "no Victim() method of a cache policy returns, on any way into the return, a value a branch has established to be nil while another candidate of the same type is established non-nil there", 3)
+	n := 0
+	for _, f := range u.RepoFuncs {
+		if f.Pkg == nil || f.Pkg.Pkg.Path() != pkgCache || f.Blocks == nil || f.Name() != "Victim" || f.Signature.Recv() == nil {
+			continue
+		}
+		n++
+		c.CallSites++
+		c.FuncsAnalysed[shortName(f)] = true
+		bad := knownNilReturnedOverCandidate(f)
+		if len(bad) == 0 {
+			c.ok(trimPkgDirs(shortName(f))+"/returns", u.pos(f.Pos()), "no empty-handed return while a candidate is at hand")
+			continue
+		}
+		for _, r := range bad {
+			c.bad(trimPkgDirs(shortName(f))+"/returns", u.ipos(r), "Victim returns a value known to be nil here although the other segment has a candidate: with entries only in that segment (e.g. the admission window of a closing TinyLFU cache) evict() receives nil and panics — the remaining entries never get their eviction callback")
+		}
+	}
+	if n == 0 {
+		c.unresolved("cache/Victim", "no Victim method found")
+	}
+}
+
+// ruleC15UnlinkBeforeNotify: an entry is taken out of the index, the size and the policy before its eviction is announced
+// (synchronous callback or event send): the callback may panic or block, and whatever happens next must not find the
+// entry still registered — it would be evicted, and announced, a second time.
+func ruleC15UnlinkBeforeNotify(c *Ctx) {
+	u := c.U1
+	c.rule("C15.unlink-before-notify", "in cache.evictItem every notification (callback call, evict event send) is dominated by the removal of the item from byKey, by the size decrement and by policy.Remove (inline or in a same-type helper that performs them on all of its paths)", 2)
+	f := u.Method(pkgCache, "cache", "evictItem")
+	if f == nil || f.Blocks == nil {
+		c.unresolved("cache.evictItem", "method")
+		return
+	}
+	c.FuncsAnalysed[shortName(f)] = true
+	isUnlink := func(i ssa.Instruction, what string) bool {
+		switch what {
+		case "byKey":
+			if cc := callOf(i); cc != nil {
+				if b, ok := cc.Value.(*ssa.Builtin); ok && b.Name() == "delete" && len(cc.Args) > 0 {
+					_, fld, isF := fieldAccess(strip(cc.Args[0]))
+					return isF && fld == "byKey"
+				}
+			}
+		case "size":
+			for _, d := range fieldDecrements(i.Parent()) {
+				if d.Instr == i && d.Field == "size" {
+					return true
+				}
+			}
+		case "policy":
+			if cc := callOf(i); cc != nil && cc.IsInvoke() && cc.Method.Name() == "Remove" {
+				_, fld, isF := fieldAccess(strip(cc.Value))
+				return isF && fld == "policy"
+			}
+		}
+		return false
+	}
+	steps := func(i ssa.Instruction, what string) bool {
+		if isUnlink(i, what) {
+			return true
+		}
+		if _, isCall := i.(*ssa.Call); isCall {
+			if h := staticCallee(i); h != nil && h.Blocks != nil && h != f && h.Signature.Recv() != nil && typeIsNamed(h.Signature.Recv().Type(), pkgCache, "cache") {
+				ok, _ := mustPass(h.Blocks[0], 0, func(j ssa.Instruction) bool { return isUnlink(j, what) }, nil)
+				return ok
+			}
+		}
+		return false
+	}
+	n := 0
+	allInstrs(f, func(i ssa.Instruction) {
+		notify := false
+		if cc := callOf(i); cc != nil && !cc.IsInvoke() && cc.StaticCallee() == nil {
+			if _, fld, ok := fieldAccess(strip(cc.Value)); ok && fld == "onEvictCallback" {
+				notify = true
+			}
+		}
+		if s, ok := i.(*ssa.Send); ok {
+			if _, fld, isF := fieldAccess(strip(s.Chan)); isF && fld == "events" {
+				notify = true
+			}
+		}
+		if !notify {
+			return
+		}
+		n++
+		c.CallSites++
+		missing := ""
+		for _, what := range []string{"byKey", "size", "policy"} {
+			done := false
+			allInstrs(f, func(j ssa.Instruction) {
+				if steps(j, what) && instrDominates(j, i) {
+					done = true
+				}
+			})
+			if !done {
+				missing = what
+			}
+		}
+		c.check(missing == "", "cache.evictItem/notify", u.ipos(i), "unlinked before announced", "the eviction is announced before the item is taken out of "+missing+": a callback that panics (or an event send that never returns) leaves the entry registered — it stays retrievable, is counted, and is evicted and announced again later")
+	})
+	if n == 0 {
+		c.bad("cache.evictItem/notify", u.pos(f.Pos()), "no notification found in evictItem")
+	}
+}
+
+// ruleC14LoadedRecordsNotModified: a key record that came out of the metastore is evidence, not working storage. The
+// in-memory metastore hands out the very records it stores, so a field written by the SDK (a Revoked flag "derived" from
+// the parent key) changes what the metastore holds — a persisted record is modified without a Store.
+func ruleC14LoadedRecordsNotModified(c *Ctx) {
+	u := c.U1
+	c.rule("C14.loaded-records-not-modified", "no function of package appencryption assigns a field of an EnvelopeKeyRecord (or of its parent KeyMeta) that it did not allocate itself: records received from the metastore, the caches or a caller are read-only — expected count on the pinned tree: none", 0)
+	for _, f := range u.RepoFuncs {
+		root := rootFunc(f)
+		if root.Pkg == nil || root.Pkg.Pkg.Path() != pkgApp || f.Blocks == nil {
+			continue
+		}
+		for _, st := range storesToForeignStructs(f, func(n *types.Named) bool {
+			return n.Obj().Pkg() != nil && n.Obj().Pkg().Path() == pkgApp && n.Obj().Name() == "EnvelopeKeyRecord"
+		}) {
+			c.CallSites++
+			_, fld, _ := fieldAccess(st.Addr)
+			c.bad(trimPkgDirs(shortName(f))+"/record."+fld+"=", u.ipos(st), "a field of a key record this function did not create is overwritten: with a metastore that hands out its stored records (the in-memory one) the persisted record itself changes — LoadLatest then reports a key as revoked that nobody revoked, and racing creators no longer converge on what was stored")
+		}
+	}
+	c.ok("appencryption/loaded-records", "", "no received key record is written to")
+}
